@@ -24,6 +24,9 @@ THEOREMS = [
     "sup_norm_is_sup", "sup_norm_landscape_is_sup", "exact_sup_norm_is_sup", "approx_sup_norm_is_max",
     "pnorm_homogeneous", "pnorm_zero", "pnorm_pow_nonneg",
     "seg_closed_form_is_RInt", "interpolant_is_line",
+    "landscape_stability_any_matching", "landscape_stability", "exact_landscape_stability", "exact_landscape_stability_model", "sup_norm_triangle",
+    "landscape_stability_every_real_t", "sweep_stability_every_real_t",
+    "sup_norm_bounds_every_real_t", "exact_landscape_stability_every_real_t", "exact_landscape_entry_stability",  # cross-property glue (Proofs/LandscapeGlue*.v, LandscapeStabP.v)
 ]
 RULE = ("seeded generator over classes {non-negative / non-positive / sign-crossing / flat / nearly-flat / "
         "axis-touching breakpoint lists given as int, float and numpy scalars; exact landscapes of diagrams, "
